@@ -96,3 +96,75 @@ HARNESSES = [
                  'MAX_CACHE_SIZE any positive int or inf, flow control on/off, one store of metric in {a,b,c} at timestamp in {10,20,30} with a symbolic value',
                  'carbon.cache executed as a message-stripped shadow module (log formatting realises the symbolic size); replay on the real module']),
 ]
+
+
+# ---- interleavings: the bound at every scheduling point -----------------------------------------------------------------
+from vp_lib import racelab as R  # noqa: E402
+
+
+def _race_setup(b0, b2, mi, ti, v, m2, t2, two, p1, n, p2):
+  stores = [(L.METRICS[mi], L.STAMPS[ti], v)] + ([(L.METRICS[m2], L.STAMPS[t2], v + 1)] if two else [])
+  plan = [('W', p1), ('R', n)] + ([('W', p2)] if p2 else [])
+  return [b0, False, b2, False], stores, plan
+
+
+def _race_verdict(out, stores):
+  if out.errors:
+    return None                       # exceptions inside store/drain: C17's clause
+  if out.size_bad is not None:
+    return 'lock free but reported size %r != %r datapoints held' % (out.size_bad[1], out.size_bad[2])
+  if out.bound_bad is not None:
+    return 'size %r above the hard limit at a scheduling point' % (out.bound_bad[1],)
+  left = L.held(out.cache)
+  drained = sum(len(b) for (m, b) in out.drains)
+  pre = sum(len(d) for d in out.pre.values())
+  distinct_new = len(set((m, ts) for (m, ts, v) in stores if not (m in out.pre and ts in out.pre[m])))
+  # every refused datapoint raised the overflow signal: accepted + refused == attempted (new timestamps)
+  if left + drained + out.overflow < pre + distinct_new:
+    return 'a datapoint disappeared without an overflow signal (%d held + %d drained + %d overflow < %d)' % (left, drained, out.overflow, pre + distinct_new)
+  return None
+
+
+def C10_race(strat: int, b0: bool, b2: bool, maxsize: int, flow: bool, mi: int, ti: int, v: int, m2: int, t2: int, two: bool,
+             p1: int, n: int, p2: int) -> bool:
+  """
+  pre: 0 <= strat <= 6
+  pre: 1 <= maxsize <= 3
+  pre: int(b0) + int(b2) <= maxsize
+  pre: 0 <= mi <= 2 and 0 <= ti <= 2 and 0 <= m2 <= 2 and 0 <= t2 <= 2
+  pre: 0 <= p1 <= 30 and 0 <= n <= 24 and 0 <= p2 <= 8
+  post: __return__
+  """
+  bits, stores, plan = _race_setup(b0, b2, mi, ti, v, m2, t2, two, p1, n, p2)
+  out = R.symbolic_run(strat, bits, 1, stores, 1, plan, maxsize=maxsize, flow=flow)
+  if [t for t in out.trace if t[0] == 'R'] and [t for t in out.trace if t[0] == 'W']:
+    cover('interleaved')
+  problem = _race_verdict(out, stores)
+  if problem:
+    raise AssertionError(problem)
+  return True
+
+
+def replay_race(strat, b0, b2, maxsize, flow, mi, ti, v, m2, t2, two, p1, n, p2):
+  bits, stores, plan = _race_setup(b0, b2, mi, ti, v, m2, t2, two, p1, n, p2)
+  sym = R.symbolic_run(strat, bits, 1, stores, 1, plan, maxsize=maxsize, flow=flow)
+  out = R.real_run(strat, bits, 1, stores, 1, sym.trace, maxsize=maxsize, flow=flow)
+  if out.replay_problems and not out.errors:
+    raise RuntimeError('schedule could not be enforced on real threads: %r' % (out.replay_problems,))
+  if out.size_bad is None and out.cache.size != L.held(out.cache):
+    out.size_bad = ('end', out.cache.size, L.held(out.cache))
+  return _race_verdict(out, stores) is None
+
+
+_RQ10 = [('s%d_%s_%s' % (i, L.STRATEGY_NAMES[i] or 'none', 'two' if t else 'one'), 'strat == %d and two == %s' % (i, bool(t))) for i in (0, 3, 6) for t in (0,)]
+_RS10 = [('s%d_%s_%s_m%d' % (i, n or 'none', 'two' if t else 'one', m), 'strat == %d and two == %s and mi == %d' % (i, bool(t), m))
+         for i, n in enumerate(L.STRATEGY_NAMES) for t in (0, 1) for m in range(3)]
+HARNESSES.append(
+  H('C10_race', quick=dict(timeout=280, shards=_RQ10, extra_pre=['p2 == 0', 'maxsize <= 2', 'not flow', 'mi == 0 and ti == 0', 'm2 == 1 and t2 <= 1']),
+    thorough=dict(timeout=1500, shards=_RS10, extra_pre=['m2 >= 1']),
+    covers=['interleaved'], replay='replay_race', twin_pre=['strat == 0 and not two'],
+    encodes=['carbon.cache:_MetricCache.store / pop / drain_metric / is_full / is_nearly_full (statement-level coroutines)'],
+    assumptions=['schedules: writer (one drain) runs p1 statements, receiver (one or two stores) n statements or until blocked, [thorough: writer p2 more], then both to completion',
+                 'bound and size exactness asserted at every scheduling point at which the lock is free; MAX_CACHE_SIZE 1..2 (quick) / 1..3 (thorough), flow control on/off (thorough)',
+                 'a refusal that lies inside the known-finding region F3 cannot occur here in quick (flow control off); thorough excludes nothing: F3 concerns acceptance, not loss',
+                 'counterexamples replayed on real OS threads running the real carbon.cache with its real lock']))
